@@ -16,37 +16,10 @@ import OG.Generated.C20
 namespace OG.C20
 open OG.Gen.C20 (Mark)
 
-/-- `FieldRef`: a key value, or one of the two infinities (a null key is `+∞`). -/
-inductive Ext (α : Type) where
-  | negInf
-  | val (a : α)
-  | posInf
-deriving DecidableEq, Repr
-
 variable {α : Type}
 
 section defs
 variable [LT α] [DecidableLT α] [DecidableEq α]
-
-/-- `FieldRef.Less`. -/
-def Ext.less : Ext α → Ext α → Bool
-  | .negInf, .negInf => false
-  | .negInf, _ => true
-  | _, .negInf => false
-  | .posInf, _ => false
-  | .val _, .posInf => true
-  | .val a, .val b => decide (a < b)
-
-/-- `FieldRef.Equals`. -/
-def Ext.eqv (a b : Ext α) : Bool := decide (a = b)
-
-/-- `Range`. -/
-structure Range (α : Type) where
-  left : Ext α
-  right : Ext α
-  li : Bool
-  ri : Bool
-deriving Repr
 
 /-- successor / predecessor on discrete (integer) columns; `none` when the column is not an
 integer column or the value is the extreme one (`MaxInt64` / `MinInt64`). -/
@@ -69,13 +42,6 @@ def Range.turnOpen (d : Disc α) (r : Range α) : Range α :=
     | some v' => { r1 with right := .val v', ri := true }
     | none => r1
   | _, _ => r1
-
-def Range.leftLEQ (r : Range α) (x : Ext α) : Bool := r.left.less x || (r.li && x.eqv r.left)
-def Range.rightGEQ (r : Range α) (x : Ext α) : Bool := x.less r.right || (r.ri && x.eqv r.right)
-def Range.rightLQ (r nr : Range α) : Bool :=
-  r.right.less nr.left || ((!r.ri || !nr.li) && nr.left.eqv r.right)
-def Range.intersects (r nr : Range α) : Bool := !(r.rightLQ nr || nr.rightLQ r)
-def Range.contains (r nr : Range α) : Bool := r.leftLEQ nr.left && r.rightGEQ nr.right
 
 /-- `createWholeRangeIncludeBound` (true) / `createWholeRangeWithoutBound` (false). -/
 def Range.whole (incl : Bool) : Range α := ⟨.negInf, .posInf, incl, incl⟩
